@@ -307,7 +307,8 @@ Section WorldProofs.
       world_ok wd' /\
       Forall2 (fun w w' => w_own w' = w_own w /\ w_back w' = w_back w /\
                            rc_kind (w_col w') = rc_kind (w_col w) /\
-                           forall r, raw_get (w_col w') r = expected_cell w existing targets r)
+                           (forall r, raw_get (w_col w') r = expected_cell w existing targets r) /\
+                           w_rows w' = col_rows (filter (fun r => negb (memN r removed)) (wd_rows wd)) w)
               (wd_cols wd) (wd_cols wd').
   Proof.
     intros wd removed Hok existing targets. unfold remove_rows. fold existing. fold targets.
